@@ -422,11 +422,59 @@ func ruleD5(c *Ctx) {
 	c.check(n >= 8, "D5", "returns", token.NoPos, fmt.Sprintf("%d returns of the IPv4 prefix test inspected (frozen minimum 8)", n))
 }
 
+// D6: no look-ahead. IP4Prefix decides at the byte under the scan index: every element of the input it reads is
+// buf[index] for the loop's index itself, never buf[index+k]. "Stops at the first byte that cannot extend the address"
+// means that what follows the stop byte cannot change the decision; a peek at the byte after a dot rejects a complete
+// address that is followed by ". Bye".
+func ruleD6(c *Ctx) {
+	fn := c.SFuncs["IP4Prefix"]
+	if fn == nil {
+		c.fail("D6", "IP4Prefix", token.NoPos, "not found")
+		return
+	}
+	head, _ := mainLoop(fn)
+	bp := anyBufParam(fn)
+	if head == nil || bp == nil {
+		c.fail("D6", "IP4Prefix:loop", fn.Pos(), "scanning loop not found")
+		return
+	}
+	var idx *ssa.Phi
+	if iff, ok := head.Instrs[len(head.Instrs)-1].(*ssa.If); ok {
+		if bo, ok := iff.Cond.(*ssa.BinOp); ok {
+			for _, v := range []ssa.Value{bo.X, bo.Y} {
+				if ph, ok := v.(*ssa.Phi); ok && ph.Block() == head {
+					idx = ph
+				}
+			}
+		}
+	}
+	if idx == nil {
+		c.fail("D6", "IP4Prefix:index", fn.Pos(), "scan index not identified")
+		return
+	}
+	n := 0
+	for _, b := range fn.Blocks {
+		for _, ins := range b.Instrs {
+			ia, ok := ins.(*ssa.IndexAddr)
+			if !ok || ia.X != ssa.Value(bp) {
+				continue
+			}
+			n++
+			env := newLinEnv(linOpts{})
+			l := env.norm(ia.Index)
+			okI := len(l.T) == 1 && l.T[env.atomKey(idx)] == 1 && l.C == 0
+			c.check(okI, "D6", fmt.Sprintf("IP4Prefix:read#%d", n), ia.Pos(), fmt.Sprintf("the input byte read is the one under the scan index (index expression %s)", env.pretty(l)))
+		}
+	}
+	c.check(n >= 3, "D6", "reads", fn.Pos(), fmt.Sprintf("%d reads of the input in IP4Prefix (frozen minimum 3)", n))
+}
+
 func init() {
 	register(&PropDef{
 		ID: "C20",
 		Rules: []Rule{
 			{"D1", "group limits in IP4Prefix: a digit is accumulated only while the group has <= 3 digits, the byte accumulated is exactly in '0'..'9' (exact byte set), at most four groups, value <= 255 checked in a wider type before the byte store (C10-A)", ruleD1},
+			{"D6", "no look-ahead: every input byte IP4Prefix reads is buf[index] for the scanning loop's index itself, so the decision at the stop byte cannot depend on what follows it", ruleD6},
 			{"D2", "address bytes are delivered on every positive return: each `return true` is preceded by copy(dst, ip[:]) under the len(dst) > 0 test (4 siblings)", ruleD2},
 			{"D3", "ContainsIP4 search: dots are searched from the resume position, candidates start 3 bytes before the dot (or at the resume position) and stop before the dot, and after a failed dot the search resumes exactly one past it, so every dot of the text is tried", ruleD3},
 			{"D5", "stop offset and indications of IP4Prefix come from the scan: every return reports the scan index; more-bytes / ok (the text ended here) only after the scanning loop's exit edge, every other indication only at a byte inside the loop — no answer from the length of the text alone", ruleD5},
